@@ -285,6 +285,21 @@ def programs(tier, rnd):
         m.st(x >= -1, x <= 2, (x[0] * z[0] - x[1] <= 3))
         return m
     lp('robust-socp', m5)
+
+    # rows WITHOUT coefficients (zero row of a data matrix, cancelled terms): `0 == c` / `0 <= c` decide feasibility on their
+    # own and must survive the export with their sense (one member per sense x sign of the constant)
+    for tag, rel, c in (('eq-pos', 'eq', 1.0), ('eq-neg', 'eq', -1.0), ('eq-zero', 'eq', 0.0), ('le-pos', 'le', 2.0),
+                        ('le-neg', 'le', -1.0), ('ge-pos', 'ge', 1.0), ('ge-neg', 'ge', -2.0)):
+        def m6(rel=rel, c=c):
+            m = ro.Model()
+            x = m.dvar(3)
+            m.min(x[0] + 2 * x[1] - x[2])
+            A = np.array([[1.0, 1.0, 0.0], [0.0, 0.0, 0.0], [0.0, -1.0, 1.0]])
+            b = np.array([1.0, c, 0.5])
+            m.st(A @ x == b if rel == 'eq' else (A @ x <= b if rel == 'le' else A @ x >= b))
+            m.st(x >= -1, x <= 4)
+            return m
+        lp('empty-row-' + tag, m6)
     n = 6 if tier == 'quick' else 120
     for i in range(n):
         seed = rnd.randint(0, 10 ** 9)
